@@ -136,6 +136,15 @@ func panicView(log []string) []string {
 	return out
 }
 
+func hasPanic(log []string) bool {
+	for _, s := range log {
+		if strings.HasPrefix(s, "PANIC") && !strings.Contains(s, "rt.Fuel") {
+			return true
+		}
+	}
+	return false
+}
+
 func cls(s string) string {
 	for i, ch := range s {
 		if ch >= '0' && ch <= '9' || ch == '<' || ch == '=' || ch == '>' || ch == ' ' {
@@ -220,6 +229,12 @@ func explore(p *Prog, cf cfg) Result {
 				record("lockstep", pre, panicAt, rl, ol)
 				if rv, ov := values(rl), values(ol); !reflect.DeepEqual(rv, ov) {
 					record("values", pre, panicAt, rv, ov)
+				}
+				// a panic raised by the program itself (not injected) that surfaces differently
+				if hasPanic(rl) || hasPanic(ol) {
+					if rv, ov := panicView(rl), panicView(ol); !reflect.DeepEqual(rv, ov) {
+						record("panic", pre, panicAt, rv, ov)
+					}
 				}
 			} else {
 				if rv, ov := panicView(rl), panicView(ol); !reflect.DeepEqual(rv, ov) {
